@@ -974,6 +974,12 @@ where
                 continue;
             }
 
+            // The configuration may have been reloaded while this client was idle:
+            // route and check this message with the current pool settings, not with
+            // the ones in force when the previous message was handled.
+            pool = self.get_pool().await?;
+            query_router.update_pool_settings(&pool.settings);
+
             // Handle all custom protocol commands, if any.
             if self
                 .handle_custom_protocol(&mut query_router, &message, &pool)
